@@ -289,3 +289,29 @@ package stack
 //@   requires s != nil && r != nil && LocsOK(s.Stack.Calls) && LocsOK(r.Stack.Calls)
 //@   modifies nothing
 //@   ensures [sigLessIsSpec C13] result <==> SigLt(s, r)
+
+// Lemmas (spec level, arbitrary heap): the order is a strict weak order.
+//@ lemma [C13] cntBounds(calls []Call, n int, loc int)
+//@   requires 0 <= n
+//@   ensures 0 <= cntLoc(calls, n, loc) && cntLoc(calls, n, loc) <= n && 0 <= cntMain(calls, n) && cntMain(calls, n) <= n
+//@   induction n
+//@ lemma [C13] cntSum(calls []Call, n int)
+//@   requires 0 <= n && n <= len(calls) && LocsOK(calls)
+//@   ensures cntLoc(calls, n, 0) + cntLoc(calls, n, 1) + cntLoc(calls, n, 2) + cntLoc(calls, n, 3) + cntLoc(calls, n, 4) == n
+//@   induction n
+//@ lemma [C13] frameIrreflexive(a []Call, x int)
+//@   requires 0 <= x
+//@   ensures !FrameLt(a, a, x)
+//@   induction len(a) - x
+//@ lemma [C13] frameAsymmetric(a []Call, b []Call, x int)
+//@   requires 0 <= x && FrameLt(a, b, x)
+//@   ensures !FrameLt(b, a, x)
+//@   induction len(a) - x
+//@ lemma [C13] frameTransitive(a []Call, b []Call, c []Call, x int)
+//@   requires 0 <= x && FrameLt(a, b, x) && FrameLt(b, c, x)
+//@   ensures FrameLt(a, c, x)
+//@   induction len(a) - x
+//@ lemma [C13] frameIncomparableTransitive(a []Call, b []Call, c []Call, x int)
+//@   requires 0 <= x && len(a) == len(b) && len(b) == len(c) && !FrameLt(a, b, x) && !FrameLt(b, a, x) && !FrameLt(b, c, x) && !FrameLt(c, b, x)
+//@   ensures !FrameLt(a, c, x) && !FrameLt(c, a, x)
+//@   induction len(a) - x
